@@ -191,8 +191,64 @@ def run_prefix(prefix):
             SymbolGraph().remove_dead_instances()
 
 
+def handle_loop(case):
+    """C20 on Ontology behaviours: build a population, assert the facts, drop every reference, collect, sweep - repeatedly.
+    Nothing of an iteration may remain: no live instance, no node, no relation, no bookkeeping entry, no krrood object."""
+    import weakref
+    from harness.replay.footprint import registry_footprint, krrood_census
+    from krrood.entity_query_language.entity import entity, let
+    from krrood.entity_query_language.quantify_entity import an
+    gc.collect()
+    SymbolGraph().clear()
+    SymbolGraph()
+    vh.install(None)
+    model = case["model"]
+    growth = []
+    for it in range(case.get("loops", 3)):
+        inst = make_world(model, case.get("world_order"))
+        refs = [weakref.ref(o) for o in inst.values()]
+        for st in case["h"]:
+            try:
+                assert_fact(model, inst, st["f"], case.get("form", "elem"))
+            except Exception:
+                pass
+        inst.clear()
+        ADDR.clear()
+        IDX.clear()
+        gc.collect()
+        if case.get("end", "sweep") == "sweep":
+            SymbolGraph().remove_dead_instances()
+        else:
+            list(an(entity(let(sgmodel.Other, []))).evaluate())
+        g = SymbolGraph()
+        growth.append({"alive_after_discard": sum(r() is not None for r in refs), "nodes": len(g.wrapped_instances),
+                       "relations": len(list(g.relations())), "footprint": registry_footprint(), "krrood": dict(krrood_census())})
+    return {"growth": growth, "end_query_footprint": end_query_footprint()}
+
+
+_EQF = {}
+
+
+def end_query_footprint():
+    """Calibration: what one evaluation of the end-of-iteration query leaves behind in krrood-typed objects (finding F24)."""
+    if not _EQF:
+        from harness.replay.footprint import krrood_census
+        from krrood.entity_query_language.entity import entity, let
+        from krrood.entity_query_language.quantify_entity import an
+        list(an(entity(let(sgmodel.Other, []))).evaluate())
+        gc.collect()
+        c0 = krrood_census()
+        list(an(entity(let(sgmodel.Other, []))).evaluate())
+        gc.collect()
+        c1 = krrood_census()
+        _EQF.update({t: c1[t] - c0.get(t, 0) for t in c1 if c1[t] != c0.get(t, 0)})
+    return dict(_EQF)
+
+
 def handle(case):
     global EVENTS
+    if case.get("mode") == "loop":
+        return handle_loop(case)
     gc.collect()
     SymbolGraph().clear()
     SymbolGraph()
